@@ -84,6 +84,9 @@ Definition is_block (o : operand) : bool :=
   | _ => false
   end.
 
+Fixpoint enum_from {A} (i : nat) (l : list A) : list (nat * A) :=
+  match l with [] => [] | x :: r => (i, x) :: enum_from (S i) r end.
+
 Record branch := mkBranch {
   b_pat : option (operand * string);   (* `let <PatIdent tokens> =` and the bare identifier *)
   b_members : list action
